@@ -1,6 +1,7 @@
 import ComposeVerif.Ops.Common
 import ComposeVerif.Model.Merge
 import ComposeVerif.Model.Unicity
+import ComposeVerif.Model.UnicityLoop
 import ComposeVerif.Model.Reset
 /-! line-protocol ops for C04: `c04.pathNext`, `c04.mergeSeq`, `c04.unicity`, `c04.parseVolume`,
 `c04.reset`, `c04.docs`.
@@ -123,6 +124,12 @@ def unicity : Handler := fun args =>
   let v := getVal args "v"
   outJson (Unicity.enforceTop v) (failsEnforce v TPath.root)
 
+/-- `EnforceUnicity` with the `seq` / `keys` loop as it is written in the Go source (`Model/UnicityLoop.lean`); an index
+out of range would be the outcome `panic override.enforceUnicity` -/
+def unicityLoop : Handler := fun args =>
+  let v := getVal args "v"
+  outJson (Unicity.enforceTopL .outLen v) (failsEnforce v TPath.root)
+
 def parseVolume : Handler := fun args =>
   match Unicity.parseVolumeTarget (getStr args "spec") with
   | some t => Json.mkObj [("ok", t)]
@@ -184,6 +191,6 @@ def docs : Handler := fun args =>
 
 def handlers : List (String × Handler) := [
   ("c04.mergeSeq", mergeSeq), ("c04.unicity", unicity), ("c04.parseVolume", parseVolume),
-  ("c04.pathNext", pathNext), ("c04.reset", reset), ("c04.docs", docs)]
+  ("c04.pathNext", pathNext), ("c04.reset", reset), ("c04.docs", docs), ("c04.unicityLoop", unicityLoop)]
 
 end CV.Ops.C04
